@@ -338,14 +338,14 @@ fn load_models() -> Vec<Model> {
   models
 }
 
-/// A generated model that is large in three directions: a decision whose logic is an `if` chain 1600 branches deep, a
+/// A generated model that is large in three directions: a decision whose logic is an `if` chain 12000 branches deep (measured with this build: 14000 fit an 8 MiB stack, 16000 do not; a 2 MiB stack holds 8000, not 10000), a
 /// chain of 150 decisions each requiring the one before, a decision table of 600 rules. (Loaded, built, deployed and
 /// invoked as it is; not fault-injected.)
 fn deep_model_xml() -> String {
   let mut x = String::from("<?xml version=\"1.0\" encoding=\"UTF-8\"?>\n<definitions xmlns=\"https://www.omg.org/spec/DMN/20191111/MODEL/\" namespace=\"https://verif/c12deep\" name=\"c12deep\" id=\"_c12deep\">\n");
   x.push_str("<inputData name=\"Code\" id=\"i_code\"><variable name=\"Code\" typeRef=\"number\"/></inputData>\n");
   let mut chain = String::new();
-  for i in 1..=1600 {
+  for i in 1..=12000 {
     chain.push_str(&format!("if Code = {} then \"R{}\" else ", i, i));
   }
   chain.push_str("\"none\"");
@@ -447,7 +447,7 @@ pub fn check(mut ctx: Ctx, replay: Option<J>) -> ! {
     }
     // a large generated model, as it is
     recs.push(json!({"src": "bytes", "m": 1, "ops": [], "seed": 0, "model": "generated/c12_deep.dmn", "xml": deep_model_xml(),
-      "ctxs": ["{Code: 2}", "{Code: 1600}", "{Code: 5000}", "{}"], "names": ["Label", "c149", "Table"]}));
+      "ctxs": ["{Code: 2}", "{Code: 12000}", "{Code: 5000}", "{}"], "names": ["Label", "c149", "Table"]}));
     // random character-level corruption (each record carries the seed of its own corruption)
     let mut rng = Rng::new(ctx.seed);
     let small: Vec<usize> = (0..models.len()).filter(|m| models[*m].xml.len() < 60_000).collect();
